@@ -47,6 +47,10 @@ class CsgScatterer(Scatterer):
         if s1.n != s2.n:
             raise InvalidScatterer(self, "Components of a CSG scatterer must not have different indicies")
 
+    def translated(self, coord1, coord2=None, coord3=None):
+        return self.__class__(self.s1.translated(coord1, coord2, coord3),
+                              self.s2.translated(coord1, coord2, coord3))
+
     @property
     def bounds(self):
         return [(min(b1[0], b2[0]), max(b1[1], b2[1])) for b1, b2 in zip(self.s1.bounds, self.s2.bounds)]
